@@ -167,7 +167,8 @@ pub fn generate_for(prop: &str, seed: u64, n: usize, _thorough: bool, _corpus: O
     for i in 0..n {
         let (tag, cfg) = &cfgs[i % cfgs.len()];
         // every ninth case: the exact min/max family (dominated operand in front of retained ones)
-        let (m, tag) = if i % 9 == 8 { (gen_model::extreme_model(&mut r).0, &"extreme") } else { (gen_model::model(&mut r, cfg).0, tag) };
+        let (m, tag) = if i % 27 == 13 { (gen_model::integer_noise_model(&mut r).0, &"integer-noise") }
+            else if i % 9 == 8 { (gen_model::extreme_model(&mut r).0, &"extreme") } else { (gen_model::model(&mut r, cfg).0, tag) };
         let c = one(&m, tag, prop);
         // the same model through the COMPOSED model (bounds port + linearizer port), every third case
         if i % 3 == 0 {
